@@ -1820,6 +1820,38 @@ func (e *CoreExtension) filterStripTags(value interface{}, args ...interface{}) 
 	return re.ReplaceAllString(s, ""), nil
 }
 
+// allNumbers reports whether every element of a slice is an integer or a float
+func allNumbers(rv reflect.Value) bool {
+	for i := 0; i < rv.Len(); i++ {
+		el := rv.Index(i)
+		if el.Kind() == reflect.Interface {
+			el = el.Elem()
+		}
+		switch el.Kind() {
+		case reflect.Int, reflect.Int8, reflect.Int16, reflect.Int32, reflect.Int64,
+			reflect.Uint, reflect.Uint8, reflect.Uint16, reflect.Uint32, reflect.Uint64,
+			reflect.Float32, reflect.Float64:
+		default:
+			return false
+		}
+	}
+	return true
+}
+
+// numberValue returns the value of an integer or a float as a float64
+func numberValue(v interface{}) float64 {
+	rv := reflect.ValueOf(v)
+	switch rv.Kind() {
+	case reflect.Int, reflect.Int8, reflect.Int16, reflect.Int32, reflect.Int64:
+		return float64(rv.Int())
+	case reflect.Uint, reflect.Uint8, reflect.Uint16, reflect.Uint32, reflect.Uint64:
+		return float64(rv.Uint())
+	case reflect.Float32, reflect.Float64:
+		return rv.Float()
+	}
+	return 0
+}
+
 func (e *CoreExtension) filterSort(value interface{}, args ...interface{}) (interface{}, error) {
 	if value == nil {
 		return nil, nil
@@ -1871,6 +1903,13 @@ func (e *CoreExtension) filterSort(value interface{}, args ...interface{}) (inte
 		// This ensures [3, '1', 2, '10'] sorts as ['1', '10', '2', '3']
 		result := make([]interface{}, len(v))
 		copy(result, v)
+		if allNumbers(reflect.ValueOf(result)) {
+			// a list of numbers is ordered by value: 9 comes before 10
+			sort.SliceStable(result, func(i, j int) bool {
+				return numberValue(result[i]) < numberValue(result[j])
+			})
+			return result, nil
+		}
 		sort.Slice(result, func(i, j int) bool {
 			return toString(result[i]) < toString(result[j])
 		})
@@ -1886,11 +1925,17 @@ func (e *CoreExtension) filterSort(value interface{}, args ...interface{}) (inte
 		}
 
 		// Use sort.SliceStable for a stable sort
+		numeric := allNumbers(result)
 		sort.SliceStable(result.Interface(), func(i, j int) bool {
 			a := result.Index(i).Interface()
 			b := result.Index(j).Interface()
 
-			// Always sort by string representation for consistency
+			// Numbers are ordered by value
+			if numeric {
+				return numberValue(a) < numberValue(b)
+			}
+
+			// Everything else by string representation for consistency
 			return toString(a) < toString(b)
 		})
 
